@@ -13,6 +13,7 @@ import (
 	goruntime "runtime"
 	"runtime/debug"
 	"strings"
+	"sync"
 	"syscall"
 	"testing"
 	"testing/synctest"
@@ -33,27 +34,29 @@ import (
 )
 
 type e2e struct {
-	in           *RunInput
-	sc           *Scenario
-	k            *Kernel
-	net          *SimNet
-	rec          *RunRecord
-	ctl          []*ctlState
-	disk         int
-	stopFiredAt  time.Duration
-	stopFired    bool
-	stopReturned bool
-	started      bool
-	idleTold     bool
-	tr           *tracker
-	warcWrites   int
-	killAtWrite  int
-	killTorn     int
-	c04          *oC04
-	hq           *HQModel
-	c16          *oC16
-	jobPath      string
-	summary      map[string]any
+	in             *RunInput
+	sc             *Scenario
+	k              *Kernel
+	net            *SimNet
+	rec            *RunRecord
+	ctl            []*ctlState
+	disk           int
+	stopFiredAt    time.Duration
+	stopFired      bool
+	stopReturned   bool
+	started        bool
+	idleTold       bool
+	tr             *tracker
+	warcWrites     int
+	wmu            sync.Mutex
+	parkWarcWrites bool
+	killAtWrite    int
+	killTorn       int
+	c04            *oC04
+	hq             *HQModel
+	c16            *oC16
+	jobPath        string
+	summary        map[string]any
 }
 
 type ctlState struct {
@@ -500,6 +503,7 @@ func RunE2E(t *testing.T, in *RunInput) {
 		if in.Phase > 0 {
 			r.killAtWrite = 0
 		}
+		r.parkWarcWrites = sc.Extra == nil || sc.Extra["no_warc_park"] == ""
 		warc.SimFileWrapper = func(f *os.File) io.Writer { return &killWriter{r: r, f: f} }
 		n.RegisterProxyScheme()
 		if sc.Cfg.UseHQ {
